@@ -57,7 +57,8 @@ func c18(c *wk.Ctx) {
 				for it := 0; it < 3; it++ {
 					pw := randWord(r) + fmt.Sprint(g)
 					s1, s2 := rbytes(r, 8+r.Intn(24)), rbytes(r, 8+r.Intn(24))
-					gg := []int{2, 3, 4, 5, 6, 7}[r.Intn(6)]
+					gens := validGenerators(p)
+					gg := int(gens[r.Intn(len(gens))])
 					srv := srpsrv.NewServer(p, gg, s1, s2, []byte(pw))
 					srv.SetB(new(big.Int).SetBytes(rbytes(r, 256)))
 					ap := &telegram.AccountPassword{HasPassword: true, SRPB: srpsrv.Pad(srv.B.Bytes()), SRPID: int64(g),
@@ -129,7 +130,10 @@ func c18case(c *wk.Ctx, idx int, r *mrand.Rand, k int, p *big.Int) {
 	}
 	s1 := rbytes(r, []int{0, 1, 8, 16, 32, 64}[r.Intn(6)])
 	s2 := rbytes(r, []int{0, 1, 8, 16, 32, 64}[r.Intn(6)])
-	g := []int{2, 3, 4, 5, 6, 7}[r.Intn(6)]
+	// a generator the specification allows for this modulus (for Telegram's usual prime: 3, 4, 7)
+	gens := validGenerators(p)
+	g := int(gens[r.Intn(len(gens))])
+	c.Count(fmt.Sprintf("generator.g=%d", g), 1)
 	srv := srpsrv.NewServer(p, g, s1, s2, []byte(pw))
 	// server secret b; corner: B begins with a zero byte (searched: ~256 modexps)
 	corner := []string{"none", "B-leading-zero", "A-leading-zero", "S-leading-zero"}[k%4]
